@@ -1143,6 +1143,19 @@ def check_oracles(w):
                 out["C09"].append(("quiescent while an end is still paused: every queue and link is drained, so no "
                                    "acknowledgement is outstanding and transfers can never resume",
                                    {"side": side, "fullness": m.fullness, "budget": w.lbs}))
+    # at quiescence the two ends of a flow agree on which directions are closed (model: Stream_quiet.quiet_flags_agree):
+    # what one end has stopped writing the other has stopped reading, and vice versa — also after an endpoint failed
+    if getattr(w, "calm", 0) >= 3 and not w.crash and not stale and w.model_cut is None:
+        for f, (pc, ps) in enumerate(zip(w.prox["c"], w.prox["s"])):
+            mc, ms = pc.wrap2, ps.wrap1
+            if mc.channel != ms.channel:
+                continue
+            if bool(mc.shut_write) != bool(ms.shut_read) or bool(mc.shut_read) != bool(ms.shut_write):
+                out["C02"].append(("quiescent, yet the two tunnel ends of a flow disagree on which directions are closed: one end "
+                                   "has finished with the flow, the other keeps its handler, socket and identifier for good",
+                                   {"flow": f, "client": [bool(mc.shut_read), bool(mc.shut_write)],
+                                    "server": [bool(ms.shut_read), bool(ms.shut_write)]}))
+                break
     # a finished wrapper (both directions shut) must have released its identifier
     if getattr(w, "calm", 0) >= 3 and not w.crash:
         for side in ("c", "s"):
